@@ -511,6 +511,12 @@ class Coder(object):
         if descriptor.id in (31011, 31012):
             raise NotImplementedError('delayed repetition descriptor')
 
+        # The factor is looked up in Table B when the template is built; an ID
+        # that is not in the table must fail like any other unknown descriptor
+        if type(descriptor.factor) is not ElementDescriptor:
+            raise UnknownDescriptor('Cannot process descriptor {} of type: {}'.format(
+                descriptor.factor, type(descriptor.factor).__name__))
+
         log.debug('Processing {}'.format(descriptor.factor))
         self.process_element_descriptor(state, bit_operator, descriptor.factor)
         for _ in range(self.get_value_for_delayed_replication_factor(state)):
